@@ -210,10 +210,8 @@ Definition raise_whitelist : list (string * string * string) := [
 
 (* sites of defects that are open today: (file, function, callee, ordinal, finding signature) *)
 Definition open_sites : list (string * string * string * nat * string) := [
-  ("myst_parser/mdit_to_docutils/base.py", "DocutilsRenderer.render_link_url", "urlparse", 0,
-   "exception:ValueError:mdit_to_docutils/base.py:render_link_url");
-  ("myst_parser/mdit_to_docutils/base.py", "DocutilsRenderer.render_link_inventory", "urlparse", 0,
-   "exception:ValueError:mdit_to_docutils/base.py:render_link_inventory")
+  (* none today.  (Until commit 3eadb40 the two urlparse() sites of render_link_url and
+     render_link_inventory were listed here: no handler for ValueError "Invalid IPv6 URL".) *)
 ].
 
 (* ---------------------------------------------------------------- checker *)
